@@ -121,15 +121,29 @@ class ProbeTransition(Transition):
             time.sleep(d)
         _maybe_interrupt("trans", c, s, i)
         u = float(rng.random())
-        state.x = np.array([c, k + 1, u, s, i])
+        # the state variable is updated IN PLACE and re-assigned (the idiom of the library's own flows and
+        # of the correlated momentum refresh): whoever keeps a reference to the array sees it change
+        x = state.x
+        x[1], x[2], x[4] = k + 1, u, i
+        state.x = x
         log_event("Trans", c=c, k=k + 1, s=s, i=i)
         return state, {"k": k + 1, "u": u, "pfast": self.pfast, "pslow": self.pslow, "flag": True}
 
 
-def probe_trace(state):
+def decoy_trace(state):
+    """An earlier trace function returning the same keys: the documented rule is that the LAST trace
+    function returning a key wins."""
+    # (the interrupt of site "trace" is raised here, in the first trace function called, so that no
+    #  part of the interrupted iteration's row has been written)
     c, k, u, s, i = state.x
     _maybe_interrupt("trace", int(c), int(s), int(i))
-    return {"x": np.array(state.x[:3]), "k": int(k)}
+    return {"k": -7, "x": np.full(5, -7.0)}
+
+
+def probe_trace(state):
+    c, k, u, s, i = state.x
+    # the state's own array object is returned (as a trace function returning state.pos / state.mom does)
+    return {"x": state.x, "k": int(k)}
 
 
 class ProbeAdapter(Adapter):
@@ -187,7 +201,7 @@ class StageStamp(Transition):
             if k < b:
                 s, prev = j + 1, (self.bounds[j - 1] if j else 0)
                 break
-        x = np.array(state.x, dtype=float)
+        x = state.x
         x[3], x[4] = s, k - prev
         state.x = x
         return state, None
